@@ -16,7 +16,9 @@ RULE = ("A history (3-25 operations, drawn and shrunk as one list) over {train()
         "(1e-10 relative in float64, 2e-5 in float32); anything the twin supports (repeated backward, dtype change) must "
         "not raise on the subject; input gradients agree. Non-trivial: a parameter-changing step (SGD/load/dtype) happens "
         "after a cached call and before another call. Calls also on single rows and non-square images; results may be modified in place by "
-        "the caller (as coupling layers do) without raising and without reaching the cache. Distinct = distinct case JSON.")
+        "the caller (as coupling layers do) without raising and without reaching the cache. Every SGD step is repeated on a never-cached copy "
+        "and must move the parameters alike (1e-9); state dicts are loaded directly or through a containing CompositeTransform. "
+        "Distinct = distinct case JSON.")
 ASSUMPTIONS = ["parameter updates are generated only in training mode (the property lists 'parameter update in training mode')",
                "the twin is built through the public constructor + load_state_dict only"]
 EXPLANATION = "generated histories; not exhaustive"
